@@ -34,10 +34,11 @@ type c16Shape struct {
 	Deleting bool
 	Sets     int  // 0,1,2
 	SelExpr  bool // the sets select by matchExpressions only
+	BadSib   bool // a sibling set with an unparsable (but CRD-admitted) selector lives in the namespace
 }
 
 func (s c16Shape) String() string {
-	return fmt.Sprintf("%s owner %s->%s labels match %v->%v sameRV=%v deleting=%v sets=%d selector-by-expressions=%v", s.Kind, s.OldOwner, s.NewOwner, s.OldMatch, s.NewMatch, s.SameRV, s.Deleting, s.Sets, s.SelExpr)
+	return fmt.Sprintf("%s owner %s->%s labels match %v->%v sameRV=%v deleting=%v sets=%d selector-by-expressions=%v malformed-sibling=%v", s.Kind, s.OldOwner, s.NewOwner, s.OldMatch, s.NewMatch, s.SameRV, s.Deleting, s.Sets, s.SelExpr, s.BadSib)
 }
 
 func c16Owners(web, db *asv1.StatefulSet) map[string]*metav1.OwnerReference {
@@ -115,6 +116,16 @@ func runC16(ctx *Ctx) *Result {
 			shapes = append(shapes, x)
 		}
 	}
+	// ... and once more with a malformed sibling set in the namespace (one bad object must not cost the
+	// other sets their wake-ups)
+	n1 := len(shapes)
+	for i := 0; i < n1; i++ {
+		if shapes[i].Sets > 0 && !shapes[i].SelExpr {
+			x := shapes[i]
+			x.BadSib = true
+			shapes = append(shapes, x)
+		}
+	}
 	res.Extra["shape_space_size"] = len(shapes)
 	for i, sh := range shapes {
 		if !ctx.mine(i % ctx.N) {
@@ -139,6 +150,13 @@ func runC16(ctx *Ctx) *Result {
 		if sh.Sets >= 2 {
 			w.Indexer(simapi.Sets).Add(db)
 			present["db"] = db
+		}
+		if sh.BadSib {
+			bad := world.NewSet(world.SetOpts{Name: "zz-bad", Replicas: 0})
+			bad.UID = "uid-bad"
+			bad.Spec.Selector = &metav1.LabelSelector{MatchExpressions: []metav1.LabelSelectorRequirement{{Key: "app", Operator: "Bogus"}}}
+			w.Indexer(simapi.Sets).Add(bad)
+			res.Stats["shapes_with_malformed_sibling"]++
 		}
 		owners := c16Owners(web, db)
 		newRV, oldRV := "10", "9"
@@ -496,8 +514,8 @@ func c16Worker(ctx *Ctx, res *Result, w *world.World, report func(int, string, s
 func init() {
 	register(&Check{Prop: "C16", Level: "exploration", Exhaustive: true,
 		Rule:   "exhaustive over event shapes: kind {add, update, delete, tombstone, tombstone of a non-pod} x owner reference {none, this set, overlapping set, stale UID, other kind, unknown set} (old x new for updates) x label match (old x new) x resourceVersion equal/different x deletionTimestamp x sets present {0, 1, 2 with overlapping selectors} x selector by matchLabels / by matchExpressions only, delivered to the handlers the controller itself registered (captured at AddEventHandler) and observed at the work queue: required ⊆ enqueued ⊆ allowed per a reference model written from the statement; set events: add / delete / tombstone / 9 kinds of update; worker bookkeeping: k in {0,1,2,5,17,24} injected consecutive failures then success through the real processNextWorkItem on a virtual-time queue (NumRequeues counts up, key waits for its back-off, Forget on success); non-trivial = shapes with a required wake-up",
-		Assume: []string{"the work queue is the harness' deterministic virtual-time implementation of workqueue.RateLimitingInterface; the property is about the controller's calls on it", "sets in the cache have valid selectors (a sibling with an unparsable selector makes GetPodStatefulSets fail for every set of the namespace; noted, outside the quantifier)"},
+		Assume: []string{"the work queue is the harness' deterministic virtual-time implementation of workqueue.RateLimitingInterface; the property is about the controller's calls on it", "the sets an event is about have valid selectors; a sibling with an unparsable selector may be present"},
 		Cases:  func(string) int { return 16 }, Run: runC16,
 		Race: runLive("C16"), RaceCases: scenarioCases(16, 160),
-		Floors: []string{"pod_event_shapes", "shapes_with_required_wakeups", "shapes_with_expression_selectors", "event_sequences", "set_event_shapes", "failed_reconciles_through_worker", "successful_reconciles_through_worker"}})
+		Floors: []string{"pod_event_shapes", "shapes_with_required_wakeups", "shapes_with_expression_selectors", "shapes_with_malformed_sibling", "event_sequences", "set_event_shapes", "failed_reconciles_through_worker", "successful_reconciles_through_worker"}})
 }
